@@ -12,7 +12,7 @@ META = {
                  "<same path without .part>), nothing is written between rename and the next open; R15.3 destruction order delivers "
                  "every byte before that close: ~CdnsExporter body (break) -> member m_encoder (~CdnsEncoder flushes) -> its member "
                  "m_cos -> compressed writer's destructor body (close: drain) -> then its member m_writer (~Writer<std::string>); "
-                 "R15.4 the same chain on the rotate path. R15.5: close() of the compressing writers drains until the stream-end code (obligation shared with C14). String members caching the composed names are expanded to their defining expression when every assignment to them happens while no output is open, or when they are kept by a refresh-before-use protocol that cdnsverif/caches.py can validate (commit of values composed aside by swap/move, a skip test that implies key == value over the present sources and excludes the never-composed state, every read after a refresh); a protocol it cannot validate makes the two name obligations unrecognised, not failed. R15.1 open target is exactly <name><ext>.part; names kept in members are decided by caches.py (a skip test that compares only a prefix is refuted) or derived.py. R15.6 = R02.3/R02.4 (the published file ends with its break). R15.7: a data member that is always assigned the same function of other members (cdnsverif/derived.py) is recomputed by every member function that changes those members; the lazy form under a validity flag / stored key is refreshed before every read and invalidated after every change. R15.8 = R06.7: write_break and the other one-byte primitives store their byte on every path that returns.",
+                 "R15.4 the same chain on the rotate path. R15.5: close() of the compressing writers drains until the stream-end code (obligation shared with C14). String members caching the composed names are expanded to their defining expression when every assignment to them happens while no output is open, or when they are kept by a refresh-before-use protocol that cdnsverif/caches.py can validate (commit of values composed aside by swap/move, a skip test that implies key == value over the present sources and excludes the never-composed state, every read after a refresh); a protocol it cannot validate makes the two name obligations unrecognised, not failed. R15.1 open target is exactly <name><ext>.part; names kept in members are decided by caches.py (a skip test that compares only a prefix is refuted) or derived.py. R15.6 = R02.3/R02.4 (the published file ends with its break). R15.7: a data member that is always assigned the same function of other members (cdnsverif/derived.py) is recomputed by every member function that changes those members; the lazy form under a validity flag / stored key is refreshed before every read and invalidated after every change. R15.8 = R06.7: write_break and the other one-byte primitives store their byte on every path that returns. R15.9 = R06.4: flush_buffer writes the staged bytes whenever there are any, then resets the cursor, and a byte count it reports is the count it handed over.",
     "explanation": "Ordering / who-may-call rules plus destruction order derived from member declaration order and destructor "
                    "bodies. All obligations enumerated and discharged; with the trusted base this is sufficient for the statement.",
     "trusted_base": ["libstdc++ basic_filebuf::close writes pending data before closing the descriptor", "POSIX rename(2) is atomic",
@@ -167,6 +167,9 @@ def check(run):
     _C02.check_framing(_C06._Renamed(run, {"R02.3": "R15.6", "R02.4": "R15.6"}))
     # ... and the encoder's write_break() (like every other primitive) stores its byte on every path that returns (R06.7 imported)
     _C06.check_always_emits(run, "R15.8")
+    # ... and what is staged - the closing break included - reaches the writer: flush_buffer hands over exactly the staged bytes,
+    # whenever there are any, and reports them truthfully to callers that refuse to store when it says 0 (R06.4 imported)
+    _C06.check_buffer_discipline(_C06._Renamed(run, {"R06.4": "R15.9"}))
 
 
 def check_names(run, R1, R2, only_names=False):
